@@ -153,12 +153,6 @@ func (r *Reconciler) Reconcile(ctx context.Context, req reconcile.Request) (reco
 		return reconcile.Result{}, errors.Wrap(err, errListRevs)
 	}
 
-	var latestRev, existingRev int64
-
-	if lr := v1.LatestRevision(comp, rl.Items); lr != nil {
-		latestRev = lr.Spec.Revision
-	}
-
 	for i := range rl.Items {
 		rev := &rl.Items[i]
 
@@ -180,6 +174,20 @@ func (r *Reconciler) Reconcile(ctx context.Context, req reconcile.Request) (reco
 				return reconcile.Result{}, errors.Wrap(err, errOwnRev)
 			}
 		}
+	}
+
+	// Determine the latest revision only now that every listed revision is
+	// controlled by the Composition again. LatestRevision ignores revisions
+	// that are not controlled by it, so computing it before the owner
+	// references were restored would restart the numbering.
+	var latestRev, existingRev int64
+
+	if lr := v1.LatestRevision(comp, rl.Items); lr != nil {
+		latestRev = lr.Spec.Revision
+	}
+
+	for i := range rl.Items {
+		rev := &rl.Items[i]
 
 		// This revision does not match our current Composition.
 		if rev.GetLabels()[v1.LabelCompositionHash] != currentHash[:63] {
